@@ -71,10 +71,10 @@ class Report:
             backends[o["backend"]] = backends.get(o["backend"], 0) + 1
             secs += o["seconds"]
         status = 0
-        if self.errors:
+        if self.violations:
+            status = 1          # a reported violation is the verdict even if another unit could not be decided
+        elif self.errors:
             status = 3
-        elif self.violations:
-            status = 1
         elif self.undecided:
             status = 2
         if n == 0 and not self.bounded and status == 0:
